@@ -155,12 +155,15 @@ Proof. intros H A B D. destruct (is_ws_cases c H) as [->|[->| ->]]; apply N.eqb_
 Local Close Scope N_scope.
 
 (* ------------------------------------------------------------------------------------------- *)
-(* kinds and payloads of the tokens that are neither skipped nor comments, on raw tokens *)
+(* kinds and payloads of the tokens that are not skipped, on raw tokens; the text of a comment is erased *)
+
+Definition erase_c (k : string) (pl : payload) : payload :=
+  if String.eqb k "Comment" then match pl with PText _ => PText [] | _ => pl end else pl.
 
 Definition rk (r : rtoken) : option (string * payload) :=
   match r_kind r with
   | KSkip => None
-  | KTok k pl => if String.eqb k "Comment" then None else Some (k, pl)
+  | KTok k pl => Some (k, erase_c k pl)
   | KError => Some (error_kind, PNone)
   end.
 
@@ -170,16 +173,30 @@ Fixpoint rks (rs : list rtoken) : list (string * payload) :=
   | r :: rs' => match rk r with Some x => x :: rks rs' | None => rks rs' end
   end.
 
-Lemma kinds_place rs : forall st, kinds (place st rs) = rks rs.
+(* all tokens, comments too (without their text): what the parser is given depends on this only *)
+Definition ckinds (ts : list ptoken) : list (string * payload) :=
+  map (fun p => (t_kind p, erase_c (t_kind p) (t_pl p))) ts.
+
+Definition dropc (l : list (string * payload)) : list (string * payload) :=
+  filter (fun x => negb (String.eqb (fst x) "Comment")) l.
+
+Lemma ckinds_place rs : forall st, ckinds (place st rs) = rks rs.
 Proof.
   induction rs as [|r rs IH]; intros st; [reflexivity|].
   cbn [place rks]. unfold rk. destruct (r_kind r) as [k pl| |].
-  - unfold kinds. cbn [filter t_kind]. destruct (String.eqb k "Comment"); cbn [negb map t_kind t_pl]; [apply IH|].
-    f_equal. apply IH.
+  - unfold ckinds. cbn [map t_kind t_pl]. f_equal. apply IH.
   - apply IH.
-  - unfold kinds. cbn [filter t_kind]. change (negb (String.eqb error_kind "Comment")) with true.
-    cbn [map t_kind t_pl]. f_equal. apply IH.
+  - unfold ckinds. cbn [map t_kind t_pl]. f_equal. apply IH.
 Qed.
+
+Lemma kinds_ckinds ts : kinds ts = dropc (ckinds ts).
+Proof.
+  induction ts as [|p ts IH]; [reflexivity|]. unfold kinds, ckinds, dropc in *. cbn [map filter fst].
+  unfold erase_c at 1. destruct (String.eqb (t_kind p) "Comment"); cbn [negb map]; [exact IH|]. f_equal. exact IH.
+Qed.
+
+Lemma kinds_place rs st : kinds (place st rs) = dropc (rks rs).
+Proof. rewrite kinds_ckinds, ckinds_place. reflexivity. Qed.
 
 Lemma ws_span s : exists ws2 z, s = ws2 ++ z /\ forallb is_ws_char ws2 = true /\
   match z with [] => True | c :: _ => is_ws_char c = false end.
@@ -743,7 +760,7 @@ Proof. intros Hs. rewrite next_raw_build, build_text, firstn_length. pose proof 
 Lemma rk_W n v s : rk (build (Some (n, pW), v) s) = None.
 Proof. cbn [build]. rewrite H_cbW. reflexivity. Qed.
 
-Lemma rk_C n v s : rk (build (Some (n, pC), v) s) = None.
+Lemma rk_C n v s : rk (build (Some (n, pC), v) s) = Some ("Comment"%string, PText []).
 Proof.
   cbn [build]. destruct H_cbC as [-> Hk]. cbn [run_callback]. unfold rk. cbn [r_kind]. rewrite Hk. reflexivity.
 Qed.
@@ -824,12 +841,16 @@ Proof.
     rewrite (IH s1b s2 eq_refl Ht). reflexivity.
 Qed.
 
-Theorem ws_insert : ws_insert_statement t.
+Theorem ws_insert_c s1 s2 ws : ws <> [] -> forallb is_ws_char ws = true ->
+  (exists rs1, concat (map r_text rs1) = s1 /\ raw_lex (length (s1 ++ s2)) t (s1 ++ s2) = rs1 ++ raw_lex (length s2) t s2) ->
+  ckinds (lex t (s1 ++ ws ++ s2)) = ckinds (lex t (s1 ++ s2)).
 Proof.
-  intros s1 s2 ws Hne Hws (rs1 & Hc & H). unfold lex. rewrite !kinds_place.
+  intros Hne Hws (rs1 & Hc & H). unfold lex. rewrite !ckinds_place.
   apply (ws_insert_rks ws Hne Hws rs1 s1 s2 Hc H).
 Qed.
 
+Theorem ws_insert : ws_insert_statement t.
+Proof. intros s1 s2 ws Hne Hws H. rewrite !kinds_ckinds. f_equal. apply ws_insert_c; assumption. Qed.
 
 (* ------------------------------------------------------------------------------------------- *)
 (* re-spacing *)
@@ -1010,11 +1031,11 @@ Proof.
 Qed.
 
 (* the statement on source texts: [s'] is [s] with other white space between the tokens *)
-Theorem respace : forall s u0 us, length us = length (raw_lex (length s) t s) ->
+Theorem respace_c : forall s u0 us, length us = length (raw_lex (length s) t s) ->
   forallb is_ws_char u0 = true -> Forall u_ok (combine (raw_lex (length s) t s) us) ->
-  kinds (lex t (u0 ++ weave (combine (raw_lex (length s) t s) us))) = kinds (lex t s).
+  ckinds (lex t (u0 ++ weave (combine (raw_lex (length s) t s) us))) = ckinds (lex t s).
 Proof.
-  intros s u0 us Hl Hu0 Hu. unfold lex. rewrite !kinds_place.
+  intros s u0 us Hl Hu0 Hu. unfold lex. rewrite !ckinds_place.
   set (rus := combine (raw_lex (length s) t s) us) in *.
   assert (Ef : map fst rus = raw_lex (length s) t s) by (apply map_fst_combine; exact Hl).
   assert (X : rks (raw_lex (length (weave rus)) t (weave rus)) = rks (raw_lex (length s) t s)).
@@ -1022,17 +1043,26 @@ Proof.
   destruct u0 as [|w u0']; [exact X|]. rewrite lead_ws; [exact X|discriminate|exact Hu0].
 Qed.
 
+Theorem respace : forall s u0 us, length us = length (raw_lex (length s) t s) ->
+  forallb is_ws_char u0 = true -> Forall u_ok (combine (raw_lex (length s) t s) us) ->
+  kinds (lex t (u0 ++ weave (combine (raw_lex (length s) t s) us))) = kinds (lex t s).
+Proof. intros s u0 us Hl Hu0 Hu. rewrite !kinds_ckinds. f_equal. apply respace_c; assumption. Qed.
+
 (* CRLF line ends instead of LF line ends, when no token contains a line break other than the line-break token *)
-Theorem crlf_same s : forallb nl_alone (raw_lex (length s) t s) = true ->
-  kinds (lex t (crlf s)) = kinds (lex t s).
+Theorem crlf_same_c s : forallb nl_alone (raw_lex (length s) t s) = true ->
+  ckinds (lex t (crlf s)) = ckinds (lex t s).
 Proof.
   intros H. set (rs := raw_lex (length s) t s) in *.
   assert (E : crlf s = cr_before rs ++ weave (combine rs (cr_us rs))).
   { rewrite <- (crlf_weave rs H). unfold rs. rewrite raw_lex_tiles. reflexivity. }
-  rewrite E. apply respace.
+  rewrite E. apply respace_c.
   - apply cr_us_length.
   - unfold cr_before. destruct rs as [|r2 rs2]; [reflexivity|]. destruct (is_nl_tok r2); reflexivity.
   - apply cr_us_ok. apply raw_lex_sane. apply Nat.le_refl.
 Qed.
+
+Theorem crlf_same s : forallb nl_alone (raw_lex (length s) t s) = true ->
+  kinds (lex t (crlf s)) = kinds (lex t s).
+Proof. intros H. rewrite !kinds_ckinds. f_equal. apply crlf_same_c. exact H. Qed.
 
 End Table.
